@@ -356,6 +356,7 @@ class C16(F.PropCheck):
     # ---------------- monitor (implementation trace vs. the property; no model involved)
     def monitor(self, case, status, outs):
         if status != 'ok':
+            if 'sig=14' in status: return ['the receive path did not return within 5 s (endless loop) for this history']
             return ['implementation crashed (%s) while receiving: memory-safety clause' % status]
         if not case.evs or case.evs[0][0] != 'START': return []
         # sessions: START ... [RELINK ...]*; outputs are cut at the BOOT lines
